@@ -833,6 +833,8 @@ class QueryPlanner:
     # method for compatibility
     def from_query(self, query=None):
         self.plan = QueryPlan()
+        # results of the CTEs of a previously planned statement belong to that plan
+        self.cte_results = {}
 
         if query is None:
             query = self.query
